@@ -662,7 +662,14 @@ func feedAggs(target map[string]aggregator.AggregatorFunction, specs []aggSpec, 
 			continue
 		}
 		val, ok := lookupFieldValue(data, spec.inputField)
-		if !ok || val == nil {
+		if !ok {
+			continue
+		}
+		if val == nil {
+			// first_value / last_value report an explicit NULL of the first / last row, as on the other window paths
+			if spec.aggType == aggregator.FirstValue || spec.aggType == aggregator.LastValue {
+				agg.Add(nil)
+			}
 			continue
 		}
 		agg.Add(toAggregateValue(val))
